@@ -56,7 +56,7 @@ R3 = REG.add(Contract(
     requires=r3_pre, ensures=r3_post, loops={0: r3_inv}, ghost_init=file_init(),
     local_types={"contents": LIST(STR)}, reveal=("io",), loop_fields=["$cursor"], modifies={"$cursor": None},
     verify_with=block_verifier("las.LASFile.read", "file_obj.seek(k)", 'sct_contents = "\\n".join(contents)', "las", occurrence=0),
-    properties=("C05", "C09"), noraise=True))
+    properties=("C05", "C09", "C03"), noraise=True))
 R3.block_outputs = {"sct_contents": STR, "line_no": INT, "line": STR}
 
 
@@ -409,7 +409,7 @@ R7 = REG.add(Contract(
     ghost_init=r7_init, modifies={f: None for f in R7_FIELDS},
     use={"las_items.SectionItems.append": "shape"},
     verify_with=block_verifier("las.LASFile.read", "curve_idx = 0", "curve_idx += 1", "las"),
-    properties=("C06", "C07"), may_raise=["Any"]))
+    properties=("C06", "C07", "C01"), may_raise=["Any"]))
 R7.note = "numpy.asarray / arr[mask] = nan / len(array) are opaque library operations that may raise"
 
 
@@ -449,7 +449,7 @@ R5 = REG.add(Contract(
                                           ("title-in-file", z3.And(0 <= c.a["first_line"].t, c.a["first_line"].t < NLINES))],
     ensures=r5_post, ghost_init=file_init(), reveal=("io",), modifies={"$cursor": None},
     verify_with=block_verifier("las.LASFile.read", "file_obj.seek(k)", "if isinstance(dtypes, dict)", "las", occurrence=0),
-    properties=("C07", "C01", "C09"), may_raise=["Any"], merge=False, free_default=True))
+    properties=("C07", "C01", "C09", "C02"), may_raise=["Any"], merge=False, free_default=True))
 
 
 # ---------------------------------------------------------------- R2: routing of a parsed header section by its title
@@ -710,3 +710,59 @@ R0 = REG.add(Contract(
     reveal=("io",), may_raise=["Any"], free_default=True, abstract_exprs=True, properties=("C05",)))
 R0.note = ("the blocks R1 (steering), R2 (routing) and R3 (~Other lines) are used through their contracts; ghost marks record that the "
            "statement was reached in iteration i; las3 handling is not specified")
+
+
+# ---------------------------------------------------------------- R4a: between the section loop and the data sections
+def r4a_verify(E, c):
+    """the statements of LASFile.read's try body that follow the section loop and precede `if not ignore_data:`,
+    located structurally (whatever is inserted there is part of the block)"""
+    import ast
+    fn = E.funcs["las.LASFile.read"]
+    tries = [n for n in fn.body if isinstance(n, ast.Try)]
+    if len(tries) != 1:
+        raise OutOfSubset("R4a: expected one try statement in LASFile.read")
+    body = tries[0].body
+    text = lambda n: (ast.get_source_segment(E.src["las"], n) or "").strip()
+    i0 = [i for i, n in enumerate(body) if isinstance(n, ast.For) and text(n).startswith("for i, (k, first_line, last_line, section_title) in enumerate(")]
+    i1 = [i for i, n in enumerate(body) if isinstance(n, ast.If) and text(n).startswith("if not ignore_data:")]
+    if len(i0) != 1 or len(i1) != 1 or not i0[0] < i1[0]:
+        raise OutOfSubset("R4a: section loop / `if not ignore_data:` not found in the try body of LASFile.read")
+    return E.verify(c, fnode=fn, body=body[i0[0] + 1:i1[0]], module="las")
+
+
+gs_tables = z3.Function("get_substitutions_result", PyObj, PyObj, I, PyObj)     # (read_policy, null_policy, component)
+
+
+def r4a_init(c, st):
+    st.ghost["$mutated"] = z3.K(PyObj, z3.BoolVal(False))
+    st.ghost["$mutated_key"] = z3.Const("mut_key0", z3.ArraySort(PyObj, PyObj))
+    st.ghost["$mutated_val"] = z3.Const("mut_val0", z3.ArraySort(PyObj, PyObj))
+
+
+def r4a_post(c):
+    same = lambda nm: c.eng.to_obj(c.v(nm)) == c.eng.to_obj(c.a[nm])
+    o = z3.Const("any_obj", PyObj)
+    rp, npol = c.eng.to_obj(c.v("read_policy")), c.eng.to_obj(c.a["null_policy"])
+    tables = [("the-substitution-tables-are-used-as-get_substitutions-returned-them: %s" % nm,
+               c.eng.to_obj(c.v(nm)) == gs_tables(rp, npol, z3.IntVal(i_)))
+              for i_, nm in enumerate(("regexp_subs", "value_null_subs", "version_NULL"))]
+    return tables + [("no-table-is-updated-in-place", z3.ForAll([o], z3.Not(z3.Select(c.g("$mutated"), o))))] + [("the-steering-values-taken-from-~V-and-~W-are-final: NULL", same("provisional_null")),
+            ("the-steering-values-taken-from-~V-and-~W-are-final: VERS", same("provisional_version")),
+            ("the-steering-values-taken-from-~V-and-~W-are-final: WRAP", same("provisional_wrapped")),
+            ("the-steering-values-taken-from-~V-and-~W-are-final: DLM", same("provisional_delimiter"))]
+
+
+REG.add(Contract("reader.define_line_splitter", params={"provisional_delimiter": "any"}, returns=OBJ, assumed=True, noraise=True, only_on_request=False,
+                 note="returns a splitter function; touches no LASFile state", properties=("C05", "C06")))
+REG.add(Contract("reader.get_substitutions", case="callee", params={"read_policy": "any", "null_policy": "any"}, returns=TUPLE(OBJ, OBJ, OBJ),
+                 assumed=True, may_raise=["Any"],
+                 ensures=lambda c: [("a-function-of-the-two-policies", z3.And([
+                     c.res.items[i_].t == gs_tables(c.eng.to_obj(c.a["read_policy"]), c.eng.to_obj(c.a["null_policy"]), z3.IntVal(i_)) for i_ in range(3)]))],
+                 note="as a callee of LASFile.read: a pure table lookup (executed on the real tables in the C06 lemma)", properties=("C05", "C06")))
+
+R4A = REG.add(Contract(
+    "las.LASFile.read#R4a-after-the-section-loop",
+    params={"self": API.LAS, "provisional_version": OBJ, "provisional_wrapped": OBJ, "provisional_null": OBJ, "provisional_delimiter": OBJ,
+            "read_policy": OBJ, "null_policy": OBJ},
+    ensures=r4a_post, verify_with=r4a_verify, may_raise=["Any"], free_default=True, modifies={}, ghost_init=r4a_init,
+    properties=("C05", "C06", "C02")))
